@@ -29,6 +29,9 @@ type Pkg struct {
 
 type Project struct {
 	Pkgs []*Pkg
+	// GoVersion: the go directive of the project's go.mod ("" = 1.23); the generated package and the
+	// instrumented sources are compiled at this language version
+	GoVersion string
 	// Extra files: path -> content per revision ("" = absent in that revision)
 	ExtraOld map[string]string
 	ExtraNew map[string]string
@@ -39,6 +42,7 @@ type Opts struct {
 	Mains        int  // number of main packages (1..4); 0 = random
 	RootMain     bool // one of the mains lives in the module root
 	Libs         int  // number of library packages; 0 = random 2..5
+	GoVersions   bool // draw the go directive of go.mod from 1.20 … 1.23 (language version of the build)
 	InScope      bool // avoid the recorded defect classes
 	Decoys       bool // add test files, testdata, vendor, nested module, non-Go files, look-alike dirs
 	Asm          bool // allow a body-less declaration with an assembly file
@@ -71,6 +75,9 @@ func Generate(r *rand.Rand, o Opts) *Project {
 		g.MaxDepth = 2
 	}
 	p := &Project{ExtraOld: map[string]string{}, ExtraNew: map[string]string{}}
+	if o.GoVersions {
+		p.GoVersion = []string{"1.20", "1.21", "1.22", "1.23"}[r.Intn(4)]
+	}
 	nLibs := o.Libs
 	if nLibs == 0 {
 		nLibs = 2 + r.Intn(4)
@@ -197,6 +204,7 @@ func Generate(r *rand.Rand, o Opts) *Project {
 				f.OneLineMain = r.Intn(5) == 0
 				f.MainSkeleton = r.Intn(4) == 0
 				f.AlignedTable = r.Intn(3) == 0
+				f.DefaultMux = r.Intn(3) == 0
 			}
 			if fi == 0 && r.Intn(3) == 0 {
 				f.InitK = 2 + r.Intn(90)
@@ -491,7 +499,11 @@ func ApplyPair(a, b int) int { return a + b }
 
 // Files returns path -> content for one revision.
 func (p *Project) Files(old bool) map[string]string {
-	out := map[string]string{"go.mod": "module " + Module + "\n\ngo 1.23\n"}
+	gv := p.GoVersion
+	if gv == "" {
+		gv = "1.23"
+	}
+	out := map[string]string{"go.mod": "module " + Module + "\n\ngo " + gv + "\n"}
 	for _, pk := range p.Pkgs {
 		for _, f := range pk.Files {
 			if old && f.Status == gen.Added {
@@ -632,6 +644,7 @@ type Config struct {
 	Alias         string
 	PkgName       string
 	PkgPath       string
+	PkgPathRaw    string // what goat.yaml says when it is not the clean form of PkgPath ("./internal/cov", "tools//goat")
 	PrinterModes  []string
 	Tabwidth      int
 	Indent        int
@@ -661,12 +674,19 @@ func yamlList(key string, xs []string) string {
 	return s
 }
 
+func (c Config) rawPkgPath() string {
+	if c.PkgPathRaw != "" {
+		return c.PkgPathRaw
+	}
+	return c.PkgPath
+}
+
 // YAML renders goat.yaml.
 func (c Config) YAML() string {
 	var b strings.Builder
 	fmt.Fprintf(&b, "appName: %s\nappVersion: %s\noldBranch: %s\nnewBranch: %s\n", c.AppName, c.AppVersion, c.Old, c.New)
 	b.WriteString(yamlList("ignores", c.Ignores))
-	fmt.Fprintf(&b, "goatPackageName: %s\ngoatPackageAlias: %s\ngoatPackagePath: %s\n", c.PkgName, c.Alias, c.PkgPath)
+	fmt.Fprintf(&b, "goatPackageName: %s\ngoatPackageAlias: %s\ngoatPackagePath: %s\n", c.PkgName, c.Alias, c.rawPkgPath())
 	fmt.Fprintf(&b, "granularity: %s\ndiffPrecision: %d\nthreads: %d\nrace: %v\n", c.Granularity, c.Precision, c.Threads, c.Race)
 	b.WriteString(yamlList("mainEntries", c.MainEntries))
 	b.WriteString(yamlList("printerConfigMode", c.PrinterModes))
@@ -687,7 +707,7 @@ func InitConfig(goat, dir string, c Config) bool {
 	}
 	args := []string{"init", "--force", "--old", c.Old, "--new", c.New, "--app-name", c.AppName, "--app-version", c.AppVersion,
 		"--granularity", c.Granularity, "--diff-precision", fmt.Sprint(c.Precision), "--threads", fmt.Sprint(c.Threads),
-		"--goat-package-name", c.PkgName, "--goat-package-alias", c.Alias, "--goat-package-path", c.PkgPath,
+		"--goat-package-name", c.PkgName, "--goat-package-alias", c.Alias, "--goat-package-path", c.rawPkgPath(),
 		"--ignores", strings.Join(ign, ","), "--main-entries", strings.Join(c.MainEntries, ","),
 		"--printer-config-mode", strings.Join(c.PrinterModes, ","), "--printer-config-tabwidth", fmt.Sprint(c.Tabwidth),
 		"--printer-config-indent", fmt.Sprint(c.Indent), "--data-type", c.DataType, fmt.Sprintf("--skip-nested-modules=%v", c.SkipNested)}
